@@ -4,7 +4,7 @@
 (* action sequence leading to it, which is then replayed on the real code.  *)
 EXTENDS SimStore
 
-SimView == <<vars, crashes, nalt>>
+SimView == <<vars, crashes, nalt, scans, nscans>>
 
 Cex(name, ok) == ok \/ (PrintT(<<"ZVCEX", ToJson(hist)>>) /\ FALSE)
 Cex_ExactlyOnce    == Cex("ExactlyOnce", ExactlyOnce)
